@@ -456,6 +456,7 @@ pub fn run(ctx: &Ctx) {
     }
     sweep(ctx, ln, &context("Init.bom", &[b"", b"\xEF\xBB", b"\xEF\xBB\xBF", b"\xFE\xFF", b"\xFF\xFE", b"\x00<\x00?", b"<\x00?\x00"], b"<?xml >a\x00", t.pick(4, 5), &[b""], false), &three, &three, false);
     sweep(ctx, ln + 3, &ws_class(), &four, &[DEFAULT], false);
+    sweep(ctx, ln + 4, &mid_bom(t.pick(3, 4)), &four, &four, false);
     sweep_eof_once(ctx, ln + 1, &raw("A.raw", SIGMA_M, t.pick(4, 5)), &three);
     sweep_eof_once(ctx, ln + 2, &atoms("C.atoms", ATOMS_C, t.pick(2, 3)), &three);
 }
